@@ -77,9 +77,9 @@ def execute(run):
     info = driver_info(binary)
     extra = {'circles': info['circles']}
     if run.tier == 'quick':
-        shards = [{'name': 'mix-%d' % i, 'n': 700} for i in range(16)]
-        shards += [{'name': 'diag-%d' % i, 'n': 100, 'force': 'diagonal'} for i in range(4)]
-        shards += [{'name': 'circ-%d' % i, 'n': 100, 'force': 'circle'} for i in range(4)]
+        shards = [{'name': 'mix-%d' % i, 'n': 2500} for i in range(16)]
+        shards += [{'name': 'diag-%d' % i, 'n': 300, 'force': 'diagonal'} for i in range(4)]
+        shards += [{'name': 'circ-%d' % i, 'n': 300, 'force': 'circle'} for i in range(4)]
     else:
         shards = [{'name': 'mix-%d' % i, 'n': 6000} for i in range(32)]
         shards += [{'name': 'diag-%d' % i, 'n': 600, 'force': 'diagonal'} for i in range(8)]
